@@ -203,6 +203,84 @@ def translate(src):
   return ms.pop(), res
 
 
+def translate_adjust():
+  """adjust_multiplier_for_auto_po2 (the arithmetic on bits / int_bits given min_shift, max_shift) and the composition of
+  adjust_accumulator_for_auto_po2, from qkeras/qtools/qtools_util.py"""
+  sys.path.insert(0, os.path.dirname(os.path.abspath(__file__)))
+  import qtoolsops as T
+  tree = ast.parse(open(os.path.join(REPO, "qkeras", "qtools", "qtools_util.py")).read())
+  fm = next((n for n in tree.body if isinstance(n, ast.FunctionDef) and n.name == "adjust_multiplier_for_auto_po2"), None)
+  fa = next((n for n in tree.body if isinstance(n, ast.FunctionDef) and n.name == "adjust_accumulator_for_auto_po2"), None)
+  if fm is None or fa is None:
+    raise Fail("adjust_*_for_auto_po2 not found")
+  # the arithmetic block: every statement of the function that assigns bits / int_bits / max_* / total_bits or output_quantizer.<attr>
+  names = {"bits", "int_bits", "max_fractional_bits", "max_int_bits", "total_bits"}
+  block = []
+  for n in ast.walk(fm):
+    if isinstance(n, ast.Assign) and len(n.targets) == 1:
+      t = n.targets[0]
+      if (isinstance(t, ast.Name) and t.id in names) or (isinstance(t, ast.Attribute) and ast.unparse(t.value) == "output_quantizer"):
+        block.append(n)
+  block.sort(key=lambda n: n.lineno)
+  if [ast.unparse(n.targets[0]) for n in block] != ["bits", "int_bits", "max_fractional_bits", "max_int_bits", "total_bits", "output_quantizer.bits", "output_quantizer.int_bits"]:
+    raise Fail("adjust_multiplier_for_auto_po2: unexpected assignments " + str([ast.unparse(n.targets[0]) for n in block]))
+  src = ast.unparse(fm)
+  for need in ("output_quantizer = multiplier.output", "max_shift = int(np.log2(np.max(scale)))", "min_shift = int(np.log2(np.min(scale)))"):
+    if need not in src:
+      raise Fail(f"adjust_multiplier_for_auto_po2: `{need}` not found")
+  try:
+    ex = T.Exec({"output_quantizer": T.Val("Q", "m"), "min_shift": T.Val("Z", "mn"), "max_shift": T.Val("Z", "mx")}, {})
+    ex.run(block)
+    adj = ex.env["output_quantizer"].s
+  except T.Fail as e:
+    raise Fail("adjust_multiplier_for_auto_po2: " + str(e))
+  # the composition: accumulate the ADJUSTED copy of the multiplier, then the bias adder
+  res = {}
+  for dw, ub in itertools.product((False, True), repeat=2):
+    p_ = Path(dw, ub)
+    p_.env.update({"multiplier": ("t", "m"), "bias_quantizer": ("t", "b")})
+    body = [st for st in fa.body if not (isinstance(st, ast.Expr))]
+    fused = None
+    for st in body:
+      s_ = " ".join(ast.unparse(st).split())
+      if s_ == "fused_multiplier = copy.deepcopy(multiplier)":
+        p_.env["fused_multiplier"] = ("t", "m")
+        continue
+      if s_ == "weights = layer.get_weights()":
+        p_.env["weights"] = ("weights",)
+        continue
+      if s_ == "kernel_accumulator_factory = quantized_operators.AccumulatorFactory()":
+        p_.env["kernel_accumulator_factory"] = ("afac",)
+        continue
+      if isinstance(st, ast.If) and " ".join(ast.unparse(st.test).split()) == "layer.__class__.__name__ in ['QDepthwiseConv2D', 'DepthwiseConv2D']":
+        if dw:
+          p_.run([x for x in st.body if not isinstance(x, ast.Assert)])
+        continue
+      if isinstance(st, ast.Return):
+        fused = p_.val(st.value)
+        continue
+      if isinstance(st, ast.If) and " ".join(ast.unparse(st.test).split()) == "not layer.use_bias":
+        if ub:
+          sub = []
+          for x in st.orelse:
+            xs = " ".join(ast.unparse(x).split())
+            if xs == "bias_accumulator_instance = quantized_operators.adder_factory.IAdder()":
+              p_.env["bias_accumulator_instance"] = ("adfac",)
+            else:
+              sub.append(x)
+          p_.run(sub)
+        else:
+          p_.run(st.body)
+        continue
+      p_.run([st])
+    if "adjust_multiplier_for_auto_po2(fused_multiplier, qkeras_weight_quantizer)" not in ast.unparse(fa):
+      raise Fail("adjust_accumulator_for_auto_po2 does not adjust its copy of the multiplier")
+    if fused is None or fused[0] != "t":
+      raise Fail("adjust_accumulator_for_auto_po2 does not return an accumulator term")
+    res[(dw, ub)] = fused[1]
+  return adj, res
+
+
 def emit(outdir):
   head = ["(* GENERATED by tools/translate/layermapgen.py from qkeras/qtools/generate_layer_data_type_map.py -- do not edit *)",
           "From Coq Require Import ZArith Bool.", "From QV Require Import Base.ZQ Base.FL QTools.Types QTools.Ops.", "Open Scope Z_scope.", ""]
@@ -224,6 +302,21 @@ def emit(outdir):
     lines.append("(* translation failed: " + why.replace("*)", "* )") + " *)")
     lines.append("Definition gen_layer_multiplier (w x : qt) : qt := mkQuantizedBits.")
     lines.append("Definition gen_layer_accumulator (depthwise use_bias : bool) (w x b : qt) (kops kops_dw : Z) : qt := mkQuantizedBits.")
+  if ok:
+    try:
+      adj, fres = translate_adjust()
+      lines.append(f"Definition gen_adjust_auto_po2 (m : qt) (mn mx : Z) : qt :=\n  {adj}.")
+      lines.append("(* the fused accumulator: m is the multiplier type AFTER gen_adjust_auto_po2 *)\n"
+                   "Definition gen_fused_accumulator (depthwise use_bias : bool) (m b : qt) (kops kops_dw : Z) : qt :=\n"
+                   "  match depthwise, use_bias with\n" +
+                   "\n".join(f"  | {'true' if dw else 'false'}, {'true' if ub else 'false'} => {fres[(dw, ub)]}" for dw, ub in itertools.product((False, True), repeat=2)) +
+                   "\n  end.")
+    except Fail as e:
+      ok, why = False, str(e)
+      lines.append("(* translation failed: " + why.replace("*)", "* )") + " *)")
+  if not ok:
+    lines.append("Definition gen_adjust_auto_po2 (m : qt) (mn mx : Z) : qt := mkQuantizedBits.")
+    lines.append("Definition gen_fused_accumulator (depthwise use_bias : bool) (m b : qt) (kops kops_dw : Z) : qt := mkQuantizedBits.")
   lines.append(f"Definition layermap_translation_ok : bool := {'true' if ok else 'false'}.")
   path = os.path.join(outdir, "LayerMapGen.v")
   with open(path, "w") as f:
